@@ -114,6 +114,16 @@ def field_selectors(names, keys, rng, budget):
                 continue
             out.append((f"unordlist:{u}", u, u, False))
             out.append((f"unordnames:{u}", [keys[i] for i in u], u, False))
+    # non-decreasing lists that repeat a field and skip as many as they repeat: as long as the span they cover
+    if nf >= 3:
+        reps = [[0, 0, 2], [nf - 3, nf - 1, nf - 1]]
+        if nf >= 4:
+            a = rng.randrange(nf - 3)
+            reps += [[a, a + 1, a + 1, a + 3], [a, a, a, a + 3]]
+        for r in reps:
+            out.append((f"repgap:{r}", r, r, False))
+            out.append((f"repgapnames:{r}", [keys[i] for i in r], r, False))
+            out.append((f"repgaparr:{r}", np.array(r), r, False))
     out.append(("negstep:all", slice(None, None, -1), list(range(nf))[::-1], False))
     mask = [rng.random() < 0.5 for _ in range(nf)]
     if any(mask):
